@@ -462,6 +462,20 @@ func checkProperty(cfg *RunCfg, prog *Program, id string, start time.Time) (int,
 	for _, k := range order {
 		r := results[k]
 		if r.EngineError != "" {
+			if (autoC17[k] || autoC09[k]) && prog.Funcs[k] != nil && prog.Funcs[k].Con == nil {
+				// a function that is part of the claim only because EVERY function of its kind is (C17: returns an
+				// error, C09: ranges over a map) and that the engine cannot analyse: the property is not established
+				// for it -- reported as an open obligation, not as a broken check
+				kind := "propagate"
+				if autoC09[k] {
+					kind = "commute"
+				}
+				r.Obligations = []*Obligation{{Name: k + "#outside-verified-subset", Kind: kind, Func: k, Props: []string{id}, Status: "undecided",
+					Desc: "the function uses a construct outside the verified subset, so the property cannot be established for it: " + r.EngineError, Output: r.EngineError}}
+				r.EngineError = ""
+				units = append(units, r)
+				continue
+			}
 			engineErrors = append(engineErrors, k+": "+r.EngineError)
 		}
 		var sel []*Obligation
